@@ -104,17 +104,20 @@ DeView(doc, D) == [i \in 1..Len(D) |->
 (* Held > limit.                                                           *)
 RECURSIVE SumSizes(_)
 SumSizes(cs) == IF cs = <<>> THEN 0 ELSE Head(cs).size + SumSizes(Tail(cs))
-\* children still to be processed by the struct visitor; lists = names of list fields
+MaxOf(S) == IF S = {} THEN 0 ELSE CHOOSE x \in S : \A y \in S : y <= x
+\* children: sequence of [name, size, inner]; inner = events the child's OWN nested sequence accesses buffer
+\* while it is being deserialized (they are pushed on the same write buffer, above the outer ones: the nested
+\* access takes write.len() as its checkpoint).  lists = names of the list fields at this level.
 RECURSIVE Held(_, _)
 Held(cs, lists) ==
     IF cs = <<>> THEN 0
-    ELSE LET c == Head(cs) IN
+    ELSE LET c == Head(cs)
+             rest == Tail(cs) IN
          IF c.name \in lists THEN
-            \* the sequence access runs to the end of the parent: everything after c that is not named c.name is buffered
-            LET others == SelectSeq(Tail(cs), LAMBDA x : x.name # c.name)
-                lastSame == LET S == {i \in 1..Len(Tail(cs)) : Tail(cs)[i].name = c.name} IN IF S = {} THEN 0 ELSE CHOOSE i \in S : \A j \in S : j <= i
-                \* skipping goes on until the End of the parent is peeked, so ALL other children are buffered
-                buffered == SumSizes(others) IN
-            Max2(buffered, Held(others, lists))
-         ELSE Held(Tail(cs), lists)
+            \* the sequence access runs to the End of the parent: every later child with another name is buffered
+            LET others == SelectSeq(rest, LAMBDA x : x.name # c.name)
+                before(i) == SumSizes(SelectSeq(SubSeq(rest, 1, i - 1), LAMBDA x : x.name # c.name))
+                peaks == {c.inner} \cup {before(i) + rest[i].inner : i \in {j \in 1..Len(rest) : rest[j].name = c.name}} IN
+            Max2(Max2(SumSizes(others), MaxOf(peaks)), Held(others, lists))
+         ELSE Max2(c.inner, Held(rest, lists))
 =============================================================================
